@@ -17,8 +17,9 @@ from . import decfam, c07
 ID = "C10"
 LEVEL = "fault_enumeration"
 BUDGET_S = {"quick": 0, "thorough": 900}
-RULE = ("case = (file of n in 1..10 records, position k in 1..n, fault kind, blocked?, encoding). For every generated file, "
-        "every k and every applicable fault kind are enumerated: cut inside record k's data, cut inside its length field, "
+RULE = ("case = (file of n records, position k, fault kind, blocked?, encoding). For every generated file of up to 10 records "
+        "every k in 1..n, and for the 12% of files with 11..40 records a fixed sample of positions (first, second, middle, "
+        "last two, 11, 12, 16, 17, 32, 33), are crossed with every applicable fault kind: cut inside record k's data, cut inside its length field, "
         "oversize length; (message level, re-framed in place) undecodable MTI, non-numeric MTI, unconfigured bitmap bit, "
         "non-numeric length prefix, letter in an integer field, impossible date, malformed PDS header, DE55 ending inside a "
         "TLV, trailing byte. distinct = distinct (file digest, k, fault kind); non-trivial = the fault changed record k")
@@ -48,6 +49,9 @@ def gen_file(seed_i, nmax=10):
     enc = kn.choice(["latin_1", "cp500", "cp037", "ascii"])
     blocked = kn.random() < 0.5
     n = kn.randint(1, nmax)
+    if kn.random() < 0.12:
+        n = kn.randint(11, 40)          # position-dependent behaviour beyond the tenth record
+    big = kn.random() < 0.15            # records above 999 / 4096 bytes
     if kn.random() < 0.75:
         cfgj = "packaged"
     else:
@@ -55,7 +59,9 @@ def gen_file(seed_i, nmax=10):
     cfg = msgcodec.effective_cfg(cfgj)
     msgs = []
     for _ in range(n):
-        m = msggen.gen_message(wl, cfg, enc, 3000)
+        m = msggen.gen_message(wl, cfg, enc, 6000 if big else 3000)
+        if big and cfgj == "packaged" and wl.random() < 0.5:
+            m.update(msggen.gen_pds(wl, enc, 5, wl.choice([1200, 3000, 4500])))
         if cfgj == "packaged":
             m.setdefault("DE2", "".join(wl.choice("0123456789") for _ in range(16)))
             m.setdefault("DE4", wl.randint(0, 10 ** 12 - 1))
@@ -63,7 +69,7 @@ def gen_file(seed_i, nmax=10):
             if not any(k.startswith("PDS") for k in m):
                 m.update(msggen.gen_pds(wl, enc, 2, 120) or {"PDS0001": "x"})
             m.setdefault("DE55", msggen.gen_tlvs(wl, 40))
-            while msggen.msg_size(m, cfg) > 3000:
+            while msggen.msg_size(m, cfg) > (6000 if big else 3000):
                 del m[max((k for k in m if k != "MTI"), key=lambda k: len(m[k]) if hasattr(m[k], "__len__") else 12)]
         msgs.append(msgcodec.msg_to_json(m))
     return {"kind": "ipm_corrupt", "encoding": enc, "config": cfgj, "blocked": blocked, "messages": msgs,
@@ -301,7 +307,9 @@ def run_file_seed(seed_i, tier, part):
     c[f"knob:enc={enc},blocked={int(base['blocked'])},cfg={'packaged' if base['config'] == 'packaged' else 'generated'},n={len(stored)}"] += 1
     fd = hashlib.sha1(image).hexdigest()[:12]
     h = hashlib.sha256(canon(base).encode())
-    for k in range(1, len(stored) + 1):
+    n = len(stored)
+    ks = range(1, n + 1) if n <= 10 else sorted(set([1, 2, n // 2, n - 1, n, 11, 12, 16, 17, 32, 33]) & set(range(1, n + 1)))
+    for k in ks:
         rec = stored[k - 1][4:]
         rd = refiso.ref_read(rec, cfg, enc, False)
         for kind in MSG_FAULTS + FRAME_FAULTS:
@@ -332,6 +340,10 @@ def run_file_seed(seed_i, tier, part):
             c[f"outcome:{kind}:{info['kind']}" + (":must" if info.get("must") else "")] += 1
             if k > 1 and info["kind"] == "liberr":
                 c["probe:error_raised_at_record_beyond_first"] += 1
+            if k > 10 and info["kind"] == "liberr":
+                c["probe:error_raised_beyond_tenth_record"] += 1
+            if len(rec) > 1024:
+                c["probe:faulted_record_longer_than_1024_bytes"] += 1
             if info.get("tool"):
                 c[f"probe:reported_through_tool_{scn['tool']}"] += 1
             c[f"knob:reader_driven_by={scn.get('style', 'for').split(':')[0]}"] += 1
